@@ -4,8 +4,15 @@ from common import pairs
 import scenario as S
 
 
+NONE_CODE = -1000003  # the Lean model's values are integers; Python's None travels as this code
+
+
+def ev(v):
+    return NONE_CODE if v is None else v
+
+
 def canon_changes(d):
-    return sorted([[k, v] for k, v in d.items()])
+    return sorted([[k, ev(v)] for k, v in d.items()])
 
 
 def inv_pairs(inv):
@@ -19,7 +26,7 @@ def sim_request(scn, trace, n_ticks=None, extra=None):
     orc = {}
     for e in trace.of("update"):
         orc.setdefault(e["comp"], []).append({
-            "outs": [[k, v] for k, v in (e.get("outs") or {}).items()],
+            "outs": [[k, ev(v)] for k, v in (e.get("outs") or {}).items()],
             "call_at": e.get("call_at"), "raises": bool(e.get("raises"))})
     par = S.parent_map(scn)
     start = None
@@ -110,7 +117,7 @@ def ticker_requests(trace):
             elif e["k"] == "t-answer":
                 cur = {"ds": [], "err": None}
                 disp.append(cur)
-                evs.append({"e": "answer", "src": e["src"], "t": e["time"], "ch": [[k, v] for k, v in e["changes"].items()]})
+                evs.append({"e": "answer", "src": e["src"], "t": e["time"], "ch": [[k, ev(v)] for k, v in e["changes"].items()]})
             elif e["k"] == "t-dispatch" and cur is not None:
                 cur["ds"].append({"k": e["dk"], "c": e["comp"], "t": e["time"],
                                   **({"ch": canon_changes(e["changes"])} if e["dk"] == "input" else {})})
